@@ -392,3 +392,147 @@ def harnesses(tier):
     if tier == 'thorough':
         hs += [FormulaSum(['H', 'O', 'H', 'O'], 10), FormulaSum(['O', 'H', 'O', 'H', 'O', 'H'], 4)]
     return hs
+
+
+# --------------------------------------------------------------------------------------------------------------
+# `substance -> unit`: each ratio property shown in the requested unit (Substance::get_in_unit, dimensionless amount).
+# The shown numeral times the printed constant times the named units is the property's value (C06 for substance replies).
+
+def _stub_to_parts_raw(ex, nc, args):
+    n = dup(deref_all(args[0]))
+    f = ex.prog.src.structs['NumberParts']
+    vals = [none(ex)] * len(f)
+    vals[f.index('raw_value')] = some(ex, n)
+    # the physical quantity shown in parentheses is a function of the dimensionality: stand-in text that spells it out
+    ents = dim_entries(n.fields[1])
+    desc = []
+    for k in sorted(ents):
+        p, e = ents[k]
+        p = simp(p) if is_z3(p) else p
+        e = simp(e) if is_z3(e) else e
+        if p is True and is_conc(e):
+            desc.append('%s^%d' % (k, int(e)))
+        elif p is not False:
+            desc = None
+            break
+    vals[f.index('quantity')] = some(ex, 'Q:' + ' '.join(desc)) if desc is not None else some(ex, Opaque('string', 'quantity'))
+    return Struct('NumberParts', vals)
+
+
+class GetInUnit(Harness):
+    name = 'substance.get_in_unit.ratio_property'
+    props = ('C06', 'C16', 'C04')
+    entry_name = 'Substance::get_in_unit'
+    loop_bound = 20
+    describe = ('`substance -> c unit` for a substance with one ratio property (arbitrary non-zero input and output, input dimensioned) and a '
+                'target `c * unit` of the output dimensionality with an arbitrary constant c: the shown numeral, times the printed factor / divisor, '
+                'times the named units, is output / input')
+    bounds = ['one property; dimensionless amount; units over kg, m']
+    assumptions = ['the target names one unit `u` worth an arbitrary value; c > 0']
+    expect_classes = ['Result::Ok']
+    _concrete = None
+    stubs = (SHOW_STUB,
+             (r'^Number::(to_parts|to_parts_digits|to_parts_simple)$', _stub_to_parts_raw, 'Number::to_parts -> raw value only'),
+             (r'^Number::prettify$', lambda ex, nc, a: dup(deref_all(a[0])), 'Number::prettify -> identity (decided separately by number.prettify)'),
+             (r'^Number::numeric_value$', lambda ex, nc, a: Tup([some(ex, 'NUMERAL'), none(ex)]), 'Number::numeric_value -> marker'),
+             (r'^Number::unit_to_string$', lambda ex, nc, a: 'unit', 'Number::unit_to_string -> marker'))
+
+    def build(self, ex, I):
+        a, iv, ov, c, uval = I.real('a'), I.real('in'), I.real('out'), I.real('c'), I.real('u')
+        ex.assume(z3.And(iv != 0, ov != 0, c > 0, uval > 0, a != 0))
+        dI = dim({'m': (True, 3)})
+        dO = dim({'kg': (True, 1)})
+        props = {'density': prop_struct(ex, number(rational(iv), dI), 'volume', number(rational(ov), dO), 'mass')}
+        s = substance(ex, number(rational(a), dim({})), 'stuff', props)
+        unit = number(rational(c * uval), dim({'kg': (True, 1)}))       # the value of `c u`
+        names = MapV()
+        names.ent['u'] = ['u', True, 1]
+        reg = make_struct(ex, 'Registry', {})
+        ctxv = make_struct(ex, 'Context', {'registry': reg, 'temporaries': MapV(), 'previous_result': none(ex)})
+        return [ref(s), unit, ref(ctxv), names, rational(c), 10, variant(ex, 'Digits', 'Default')], {'a': a, 'iv': iv, 'ov': ov, 'c': c, 'u': uval}
+
+    def entry(self, ex, args, ctx):
+        return ex.call(None, 'runtime::substance::Substance::get_in_unit', list(args))
+
+    def post(self, ex, ctx, outcome):
+        r = deref_all(outcome[1])
+        if not is_ok(r):
+            return [('a ratio property converts to a unit of its output', False)]
+        rep = deref_all(payload(r))
+        props = deref_all(rep.fields[ex.prog.src.structs['SubstanceReply'].index('properties')])
+        if len(props.fields) != 1:
+            return [('exactly the one matching property is listed (got %d)' % len(props.fields), False)]
+        pr = deref_all(props.fields[0])
+        parts = deref_all(pr.fields[ex.prog.src.structs['PropertyReply'].index('value')])
+        f = ex.prog.src.structs['NumberParts']
+        raw = deref_all(parts.fields[f.index('raw_value')])
+        if raw.variant == 0:
+            return [('the property carries a value', False)]
+        val, d = number_parts(raw.fields[0])
+        kind, x = numeric_parts(val)
+
+        def intval(opt):
+            opt = deref_all(opt)
+            if opt.variant == 0:
+                return z3.IntVal(1)
+            t = deref_all(opt.fields[0])
+            if isinstance(t, str) and t.isdigit():
+                return z3.IntVal(int(t))
+            if isinstance(t, Opaque) and isinstance(t.info, tuple) and t.info[0] == 'pieces' and len(t.info[1]) == 1 and isinstance(t.info[1][0], tuple):
+                return zint(deref_all(t.info[1][0][1]))
+            return None
+        fv, dv = intval(parts.fields[f.index('factor')]), intval(parts.fields[f.index('divfactor')])
+        if fv is None or dv is None or kind != 'rational':
+            return [('numeral, factor and divisor are readable', False)]
+        names = [k for k, (p, e) in d.items() if p is True or simp(p) is True]
+        # shown quantity = numeral * factor / divfactor * u / m^3 ; u is worth ctx['u'] kg
+        a, iv, ov, c, u = (zreal(ctx[k]) for k in ('a', 'iv', 'ov', 'c', 'u'))
+        q = deref_all(parts.fields[f.index('quantity')])
+        qtxt = deref_all(q.fields[0]) if q.variant == 1 else None
+        return [('the shown unit names the target unit over the input unit (%s)' % sorted(names), sorted(names) == ['m', 'u']),
+                ('the quantity in parentheses is that of output / input (got %r)' % (qtxt,), qtxt == 'Q:kg^1 m^-3'),
+                ('numeral * printed constant * unit = output / input', z3.Implies(dv != 0, zreal(x) * z3.ToReal(fv) * u * iv == ov * z3.ToReal(dv)))]
+
+    def prefer(self, ctx):
+        out = []
+        for k, want in (('c', 1000), ('u', 1), ('a', 1), ('in', 1), ('out', 1)):
+            key = {'in': 'iv', 'out': 'ov'}.get(k, k)
+            out.append(ctx[key] == want)
+        return out
+
+    def native(self, inputs, label):
+        return [{'mode': 'query', 'text': t} for t in ('water -> 1000 gram', 'water -> gram', 'water -> 2 kg', 'water -> kg', 'water -> 3 liter')]
+
+    def judge(self, inputs, label, obs):
+        """density of water read back from each reply: numeral * factor / divisor * (named units) must be 1000 kg/m^3"""
+        bad = []
+        worth = {'kilogram': Fraction(1), 'gram': Fraction(1, 1000), 'millimeter': Fraction(1, 1000), 'meter': Fraction(1), 'liter': Fraction(1, 1000),
+                 'centimeter': Fraction(1, 100), 'milliliter': Fraction(1, 10 ** 6), 'tonne': Fraction(1000)}
+        for o in obs:
+            if o.get('outcome') == 'panic' or o.get('render_panic'):
+                bad.append('panic %s' % (o.get('panic') or o.get('render_panic')))
+                continue
+            for p in ((o.get('json') or {}).get('properties') or []):
+                if p.get('name') not in ('density', 'specific_volume'):
+                    continue
+                v = p.get('value') or {}
+                rv = (v.get('rawValue') or {})
+                num = rv.get('value') or {}
+                try:
+                    x = Fraction(int(num['numer']), int(num['denom']))
+                    x *= Fraction(v.get('factor') or 1) / Fraction(v.get('divfactor') or 1)
+                    for name, e in (rv.get('unit') or {}).items():
+                        x *= worth[name] ** int(e)
+                except (KeyError, ValueError, TypeError, ZeroDivisionError):
+                    continue
+                want = Fraction(1000) if p['name'] == 'density' else Fraction(1, 1000)
+                if x != want:
+                    bad.append('%s of water read back from %r is %s, not %s (SI)' % (p['name'], (o.get('display') or '')[:70], x, want))
+        return bool(bad), '; '.join(bad[:2]) or 'substance properties read back to their values'
+
+
+_c16_prev = harnesses
+
+
+def harnesses(tier):   # noqa: F811
+    return _c16_prev(tier) + [GetInUnit()]
